@@ -391,6 +391,231 @@ impl Check for ReconnectScript {
     }
 }
 
+
+// ---------------------------------------------------------------------------------------------
+// market_stream_entry: the same scripts through the public entry point init_market_stream()
+// ---------------------------------------------------------------------------------------------
+
+mod scripted_venue {
+    //! An in-process "exchange" whose `MarketStream::init` pops the harness's script (kept per
+    //! thread: every case runs on one thread under a paused current-thread runtime).
+    use super::{Item, Outcome};
+    use barter_data::{
+        Identifier, MarketStream, NoInitialSnapshots, SnapshotFetcher,
+        error::DataError,
+        event::MarketEvent,
+        exchange::{Connector, StreamSelector, binance::subscription::BinanceSubResponse, subscription::ExchangeSub},
+        subscriber::{WebSocketSubscriber, validator::WebSocketSubValidator},
+        subscription::{Subscription, trade::{PublicTrade, PublicTrades}},
+    };
+    use barter_instrument::{Side, exchange::ExchangeId, instrument::market_data::MarketDataInstrument};
+    use barter_integration::{error::SocketError, protocol::websocket::WsMessage};
+    use futures::{Stream, StreamExt};
+    use serde::{Deserialize, Serialize};
+    use std::{cell::RefCell, collections::VecDeque, pin::Pin, time::Duration};
+
+    pub type VenueItem = Result<MarketEvent<MarketDataInstrument, PublicTrade>, DataError>;
+
+    thread_local! {
+        pub static SCRIPT: RefCell<VecDeque<Outcome>> = const { RefCell::new(VecDeque::new()) };
+        pub static ATTEMPTS: RefCell<Vec<u64>> = const { RefCell::new(Vec::new()) };
+        pub static START: RefCell<Option<tokio::time::Instant>> = const { RefCell::new(None) };
+    }
+
+    #[derive(Debug, Clone, Default, PartialEq, Eq, PartialOrd, Ord, Hash, Deserialize, Serialize)]
+    pub struct Scripted;
+    pub struct Channel;
+    impl AsRef<str> for Channel {
+        fn as_ref(&self) -> &str {
+            "trades"
+        }
+    }
+    pub struct Market(String);
+    impl AsRef<str> for Market {
+        fn as_ref(&self) -> &str {
+            &self.0
+        }
+    }
+    impl<Instrument> Identifier<Channel> for Subscription<Scripted, Instrument, PublicTrades> {
+        fn id(&self) -> Channel {
+            Channel
+        }
+    }
+    impl<Kind> Identifier<Market> for Subscription<Scripted, MarketDataInstrument, Kind> {
+        fn id(&self) -> Market {
+            Market(format!("{}{}", self.instrument.base, self.instrument.quote))
+        }
+    }
+    impl Connector for Scripted {
+        const ID: ExchangeId = ExchangeId::Mock;
+        type Channel = Channel;
+        type Market = Market;
+        type Subscriber = WebSocketSubscriber;
+        type SubValidator = WebSocketSubValidator;
+        type SubResponse = BinanceSubResponse;
+        fn url() -> Result<url::Url, SocketError> {
+            Ok(url::Url::parse("ws://127.0.0.1:9").unwrap())
+        }
+        fn requests(_: Vec<ExchangeSub<Self::Channel, Self::Market>>) -> Vec<WsMessage> {
+            Vec::new()
+        }
+    }
+
+    pub fn instrument() -> MarketDataInstrument {
+        MarketDataInstrument::from(("btc", "usdt", barter_instrument::instrument::market_data::kind::MarketDataInstrumentKind::Spot))
+    }
+
+    pub struct Connection(Pin<Box<dyn Stream<Item = VenueItem> + Send>>);
+    impl Stream for Connection {
+        type Item = VenueItem;
+        fn poll_next(mut self: Pin<&mut Self>, cx: &mut std::task::Context<'_>) -> std::task::Poll<Option<VenueItem>> {
+            self.0.as_mut().poll_next(cx)
+        }
+    }
+
+    fn venue_item(item: Item) -> VenueItem {
+        match item {
+            Item::Value(v) => Ok(MarketEvent { time_exchange: Default::default(), time_received: Default::default(), exchange: ExchangeId::Mock, instrument: instrument(), kind: PublicTrade { id: v.to_string(), price: 1.0, amount: 1.0, side: Side::Buy } }),
+            // a recoverable error and a terminal one (sequence errors end the connection)
+            Item::SoftError(id) => Err(DataError::Socket(id.to_string())),
+            Item::TerminalError(id) => Err(DataError::InvalidSequence { prev_last_update_id: id as u64, first_update_id: 0 }),
+        }
+    }
+
+    #[async_trait::async_trait]
+    impl MarketStream<Scripted, MarketDataInstrument, PublicTrades> for Connection {
+        async fn init<SnapFetcher>(_: &[Subscription<Scripted, MarketDataInstrument, PublicTrades>]) -> Result<Self, DataError>
+        where
+            SnapFetcher: SnapshotFetcher<Scripted, PublicTrades>,
+            Subscription<Scripted, MarketDataInstrument, PublicTrades>: Identifier<Channel> + Identifier<Market>,
+        {
+            let next = SCRIPT.with(|s| s.borrow_mut().pop_front());
+            let start = START.with(|s| *s.borrow()).expect("start instant set by the check");
+            ATTEMPTS.with(|a| a.borrow_mut().push(start.elapsed().as_millis() as u64));
+            match next {
+                None => std::future::pending::<Result<Self, DataError>>().await,
+                Some(Outcome::InitFail { init_ms }) => {
+                    tokio::time::sleep(Duration::from_millis(init_ms as u64)).await;
+                    Err(DataError::Socket("refused".into()))
+                }
+                Some(Outcome::Connected { init_ms, items }) => {
+                    tokio::time::sleep(Duration::from_millis(init_ms as u64)).await;
+                    Ok(Connection(Box::pin(futures::stream::iter(items).then(|(d, item)| async move {
+                        if d > 0 {
+                            tokio::time::sleep(Duration::from_millis(d as u64)).await;
+                        }
+                        venue_item(item)
+                    }))))
+                }
+            }
+        }
+    }
+
+    impl StreamSelector<MarketDataInstrument, PublicTrades> for Scripted {
+        type SnapFetcher = NoInitialSnapshots;
+        type Stream = Connection;
+    }
+}
+
+/// The reconnect scripts again, this time through `barter_data::streams::consumer::
+/// init_market_stream(policy, subscriptions)` with a scripted in-process venue: same delivery, same
+/// notices, and the waits follow the policy that was PASSED IN.
+pub struct MarketStreamEntry;
+
+impl Check for MarketStreamEntry {
+    type Case = ReconnectCase;
+    const NAME: &'static str = "market_stream_entry";
+
+    fn normalise(case: ReconnectCase) -> ReconnectCase {
+        <ReconnectScript as Check>::normalise(case)
+    }
+
+    fn strategy(tier: Tier) -> BoxedStrategy<ReconnectCase> {
+        <ReconnectScript as Check>::strategy(tier)
+    }
+
+    fn eval(case: &ReconnectCase) -> CaseReport {
+        use barter_data::{streams::consumer::init_market_stream, subscription::{Subscription, trade::PublicTrades}};
+        use scripted_venue::{ATTEMPTS, SCRIPT, START, Scripted, instrument};
+        let mut rep = CaseReport::new();
+        macro_rules! bad {
+            ($sig:expr, $($fmt:tt)+) => {{ rep.fail($sig, format!($($fmt)+)); return rep; }};
+        }
+        let expect = reference(case, false);
+        let policy = ReconnectionBackoffPolicy { backoff_ms_initial: case.initial_ms.max(1) as u64, backoff_multiplier: case.multiplier.max(1), backoff_ms_max: case.initial_ms.max(1) as u64 + case.max_extra_ms as u64 };
+        let rt = tokio::runtime::Builder::new_current_thread().enable_time().start_paused(true).build().expect("runtime");
+        let horizon = Duration::from_secs(48 * 3600);
+        let result: Option<(Vec<(u64, Seen)>, bool, bool)> = rt.block_on(async {
+            let start = Instant::now();
+            SCRIPT.with(|s| *s.borrow_mut() = case.script.iter().cloned().collect());
+            ATTEMPTS.with(|a| a.borrow_mut().clear());
+            START.with(|s| *s.borrow_mut() = Some(start));
+            let stream = match init_market_stream(policy.clone(), vec![Subscription::new(Scripted, instrument(), PublicTrades)]).await {
+                Ok(s) => s,
+                Err(_) => return None,
+            };
+            let mut st = Box::pin(stream);
+            let (mut seen, mut ended, mut terminal_leaked) = (Vec::new(), false, false);
+            loop {
+                match tokio::time::timeout(horizon, st.next()).await {
+                    Err(_) => break,
+                    Ok(None) => {
+                        ended = true;
+                        break;
+                    }
+                    Ok(Some(ev)) => {
+                        let s = match ev {
+                            Event::Reconnecting(_) => Seen::Reconnecting,
+                            Event::Item(Ok(e)) => Seen::Value(e.kind.id.parse().unwrap_or(u32::MAX)),
+                            Event::Item(Err(e)) => {
+                                terminal_leaked |= e.is_terminal();
+                                Seen::SoftError(match &e { barter_data::error::DataError::Socket(s) => s.parse().unwrap_or(u32::MAX), _ => u32::MAX })
+                            }
+                        };
+                        seen.push((start.elapsed().as_millis() as u64, s));
+                    }
+                }
+            }
+            Some((seen, ended, terminal_leaked))
+        });
+        let attempts = ATTEMPTS.with(|a| a.borrow().clone());
+        let Some((seen, ended, terminal_leaked)) = result else {
+            if !expect.first_init_fails {
+                bad!("entry:first-init-error", "init_market_stream returned Err although the first initialisation succeeds");
+            }
+            rep.class("first_init_fails");
+            return rep;
+        };
+        if expect.first_init_fails {
+            bad!("entry:first-init-error-swallowed", "the first initialisation fails but init_market_stream returned a stream");
+        }
+        if ended {
+            bad!("entry:stream-ended", "the market stream ended by itself after {:?}", seen.last());
+        }
+        if terminal_leaked {
+            bad!("entry:terminal-error-delivered", "a terminal error was delivered as an item: {seen:?}");
+        }
+        let got_items: Vec<&Seen> = seen.iter().map(|(_, s)| s).collect();
+        let want_items: Vec<&Seen> = expect.output.iter().map(|(_, s)| s).collect();
+        if got_items != want_items {
+            bad!("entry:output-sequence", "delivered {got_items:?}, the script means {want_items:?}");
+        }
+        if attempts.len() != expect.attempts.len() {
+            bad!("entry:attempt-count", "{} initialisation attempts at {attempts:?}, expected {} at {:?}", attempts.len(), expect.attempts.len(), expect.attempts);
+        }
+        for (k, (a, w)) in attempts.iter().zip(expect.attempts.iter()).enumerate() {
+            if a.abs_diff(*w) > 1 {
+                bad!("entry:backoff-timing", "init_market_stream with policy {policy:?}: initialisation attempt {k} started at virtual {a} ms, the policy passed in means {w} ms (all attempts {attempts:?}, expected {:?})", expect.attempts);
+            }
+        }
+        rep.class_if(expect.connections >= 2, "two_or_more_connections");
+        rep.class_if(expect.consecutive_failures_max >= 3, "three_consecutive_failures");
+        rep.class_if(expect.max_gap_reached, "backoff_cap_reached");
+        rep.nontrivial = expect.connections >= 2 && expect.consecutive_failures_max >= 2;
+        rep
+    }
+}
+
 // ---------------------------------------------------------------------------------------------
 
 #[derive(Debug, Clone, Copy, PartialEq, Eq, Serialize, Deserialize)]
@@ -527,7 +752,7 @@ impl Check for MergeOrder {
 }
 
 pub fn run(ctx: &mut Ctx) {
-    ctx.rule = "reconnect_script: script vec(outcome,1..12|24), outcome = init failure (after 0..300 ms) | connection (init 0..300 ms, 0..5 items = value / non-terminal error / terminal error, each after 0..500 ms); policy initial 1..5000 ms, multiplier 1..10, max = initial + {0, <20 s, <2000 s}; composition plain / + with_error_handler / + forward_to; paused clock. non-trivial = >= 2 successful connections AND >= 3 consecutive init failures AND the backoff cap reached; distinct by hash of the case. merge_order: two inputs defined by a slot sequence (one event per slot instant: left item, right item, left ends, right ends); non-trivial = both inputs contribute >= 2 items before the first end.".into();
+    ctx.rule = "reconnect_script: script vec(outcome,1..12|24), outcome = init failure (after 0..300 ms) | connection (init 0..300 ms, 0..5 items = value / non-terminal error / terminal error, each after 0..500 ms); policy initial 1..5000 ms, multiplier 1..10, max = initial + {0, <20 s, <2000 s}; composition plain / + with_error_handler / + forward_to; paused clock. non-trivial = >= 2 successful connections AND >= 3 consecutive init failures AND the backoff cap reached; distinct by hash of the case. market_stream_entry: the same scripts through init_market_stream(policy, subscriptions) with a scripted in-process venue (delivery, notices and the waits of the policy passed in). merge_order: two inputs defined by a slot sequence (one event per slot instant: left item, right item, left ends, right ends); non-trivial = both inputs contribute >= 2 items before the first end.".into();
     ctx.assumptions = vec![
         "tokio paused clock; instants compared with 1 ms tolerance (timer granularity)".into(),
         "policy has multiplier >= 1 and max >= initial".into(),
@@ -536,10 +761,12 @@ pub fn run(ctx: &mut Ctx) {
     ];
     ctx.run_regressions::<ReconnectScript>();
     ctx.run_regressions::<MergeOrder>();
+    ctx.run_regressions::<MarketStreamEntry>();
+    ctx.run::<MarketStreamEntry>(ctx.tier.pick(30_000, 400_000));
     ctx.run::<ReconnectScript>(ctx.tier.pick(60_000, 1_000_000));
     ctx.run::<MergeOrder>(ctx.tier.pick(60_000, 1_000_000));
 }
 
 pub fn replay(ctx: &mut Ctx, doc: &Value) -> bool {
-    ctx.replay::<ReconnectScript>(doc) || ctx.replay::<MergeOrder>(doc)
+    ctx.replay::<ReconnectScript>(doc) || ctx.replay::<MarketStreamEntry>(doc) || ctx.replay::<MergeOrder>(doc)
 }
